@@ -226,3 +226,145 @@ V['context.mark_one#unwind'] = {
     'trace_root': dict(serves=['C11'], requires=['mark_one_pre(old(self)@)', '!old(self)@.unwinding'],
                        ensures='final(self)@.unwinding ==> mark_one_unwind_rel(old(self)@, S { unwinding: false, ..final(self)@ })'),
 }
+
+
+# =====================================================================================================================
+# Layer L rows: which properties each lemma serves (module default, per-lemma override)
+L_SERVES = {
+    'lemmas':    ['C01', 'C02', 'C06', 'C07', 'C11'],
+    'lem_basic': ['C01', 'C04', 'C05'],
+    'lem_mark':  ['C01', 'C02', 'C06', 'C07'],
+    'lem_sweep': ['C01', 'C02', 'C04', 'C05'],
+    'lem_mut':   ['C01', 'C05', 'C06', 'C07'],
+    'lem_drop':  ['C04', 'C11'],
+    'bcast':     ['C01', 'C02', 'C04', 'C05', 'C07', 'C08', 'C09'],
+    'axioms':    ['C09'],
+    'theorems':  [],
+}
+L_SERVES_FN = {
+    'lem_mut.lemma_link_inv': ['C01', 'C03', 'C05', 'C18'],
+    'lem_mut.lemma_root_barrier_inv': ['C01', 'C06'],
+    'lem_mut.lemma_resurrect_inv': ['C07'],
+    'lem_mut.lemma_wake_inv': ['C01', 'C08'],
+    'lem_mut.lemma_enter_sweep_inv': ['C01', 'C02', 'C05', 'C08'],
+    'lem_mut.lemma_finish_inv': ['C01', 'C02', 'C08'],
+}
+
+
+def lemma_serves(mod, fn):
+    return L_SERVES_FN.get('%s.%s' % (mod, fn)) or THEOREM_SERVES.get(fn) or L_SERVES.get(mod, [])
+
+
+THEOREM_SERVES = {}
+
+# =====================================================================================================================
+# Layer K rows.  harness = fn name in kani/<file>_verif.rs;  complete = True, or a string stating the bound.
+K = {}
+
+
+def _k(rid, harness, serves, text, complete=True, tier='quick', features='', fn=None):
+    K[rid] = dict(harness=harness, serves=serves, text=text, complete=complete, tier=tier, features=features, fn=fn or harness)
+
+
+# header accessors (seam 2: shim specs vs gc_ptr.rs)
+_HDR = ['C01', 'C04', 'C05', 'C17']
+_k('K.hdr.tag_bits_free', 'k_hdr_tag_bits_free', _HDR, 'GcVtable alignment >= 16 leaves the four flag bits free; GcHeader::new = White, !needs_trace, !live, next None')
+_k('K.hdr.getters', 'k_hdr_getters', _HDR, 'color / needs_trace / is_live / vtable read exactly bits 0x3 / 0x4 / 0x8 / the untagged pointer')
+_k('K.hdr.set_color', 'k_hdr_set_color', _HDR, 'set_color writes bits 0x3 only; flags, next and vtable pointer intact')
+_k('K.hdr.set_live', 'k_hdr_set_live', _HDR, 'set_live writes bit 0x8 only')
+_k('K.hdr.set_needs_trace', 'k_hdr_set_needs_trace', _HDR, 'set_needs_trace writes bit 0x4 only')
+_k('K.hdr.set_next', 'k_hdr_set_next', _HDR, 'set_next writes the link only')
+# layout kernel
+_k('K.layout.prefix_header_kernel', 'k_layout_prefix_header_kernel', ['C17', 'C04'], 'prefix_header_layout for ALL header/value layouts: value offset and header position aligned, value inside block, alignment = max')
+_k('K.layout.meta_header_kernel', 'k_layout_meta_header_kernel', ['C17'], 'META_HEADER_LAYOUT arithmetic for symbolic metadata layouts: header is the tail of the meta+header block')
+# debt formula
+_k('K.debt.nonneg_finite_empty', 'k_debt_nonneg_finite_empty', ['C10', 'C09'], 'allocation_debt >= 0, finite, not NaN for all counters and pacing; 0 for an empty arena (axiom ax_debt_empty)')
+_k('K.debt.zero_factors_work_never_pays', 'k_debt_zero_factors_work_never_pays', ['C09'], 'all work factors 0 => credit counters do not influence the debt test (axiom ax_debt_zero_factors)')
+_k('K.debt.finish_cycle_state', 'k_debt_finish_cycle_state', ['C09', 'C10'], 'finish_cycle: per-cycle counters reset, Gc count untouched, wake-up = max(min_sleep, sleep_factor x survivors), unpaid debt carried over exactly (reset: none)')
+_k('K.debt.finish_cycle_reset', 'k_debt_finish_cycle_reset', ['C09'], 'allocation_debt() == 0 right after finish_cycle(true) (axiom ax_debt_reset)')
+_k('K.debt.sleep_honoured', 'k_debt_sleep_honoured', ['C09'], 'after a debt-free finish: debt 0 while allocations <= wake-up amount, > 0 once they exceed it')
+_k('K.debt.wakeup_formula', 'k_debt_wakeup_formula', ['C09'], 'wake-up amount = max(min_sleep, sleep_factor x survivors)', tier='thorough')
+_k('K.debt.adjust', 'k_debt_adjust', ['C10'], 'adjust_debt(x) adds exactly x to the artificial-debt term of the formula and touches nothing else')
+_k('K.metrics.counter_frames', 'k_metrics_counter_frames', ['C10', 'C20'], 'each mark_gc_* helper updates exactly its own counters; total_gc_count reads total_gcs')
+
+
+def kani_rows(pid, tier):
+    return {r: v for r, v in K.items() if pid in v['serves'] and (tier == 'thorough' or v['tier'] == 'quick')}
+
+
+# =====================================================================================================================
+VERUS_PROPS = {'C01', 'C02', 'C03', 'C04', 'C05', 'C06', 'C07', 'C08', 'C09', 'C10', 'C11', 'C14', 'C18', 'C19', 'C20'}
+
+
+def uses_verus(pid):
+    return pid in VERUS_PROPS
+
+
+def inventory_rows(pid, repo, res):
+    """I.* rows: structural facts recomputed from the source (DESIGN 2.6). Returns (rows, failed)."""
+    import inventory
+    return inventory.rows(pid, repo, res)
+
+
+def known_site_matches(k, row, msgs, res):
+    """a known finding is keyed by row AND by a site string that must occur in the verifier's message"""
+    site = k.get('site')
+    if not site:
+        return True
+    blob = '\n'.join(msgs)
+    return all(part in blob for part in site.split('+'))
+
+
+REPLAY = {
+    # V row -> K row asked for a concrete input when the V row fails
+}
+
+
+def replay_row(r):
+    return REPLAY.get(r)
+
+
+LEVEL = {}
+
+
+def level(pid):
+    return LEVEL.get(pid, 'proof')
+
+
+ASSUMPTIONS = {
+    'A-client': 'safe clients store pointers only through the sanctioned paths and cannot hold a pointer across callbacks or arenas (C12, C13; rustc, not checked here)',
+    'A-borrowck': 'collection methods need &mut Arena, callbacks and builders borrow it: no collector step runs while a callback or builder is alive (rustc)',
+    'A-collect': 'every Collect::trace reports exactly the pointers its value holds; NEEDS_TRACE = false types hold none (C15/C16 rows for derive output and provided impls; user unsafe impls assumed)',
+    'A-dtor': 'destructors of arena values do not touch Gc pointers and do not re-enter the arena (Collect safety rule 2)',
+    'A-unwind': 'Rust unwinding runs the Drop of live locals; a catch_unwind continuation sees the state the generated unwind variant ends in',
+    'A-real': 'the rounded f64 evaluation of the debt formula agrees with its exact value on the sign test (narrowed by rows K.debt.*)',
+    'A-addr': 'a usize event counter is never incremented 2^64 times (counter_add is assumed not to wrap; decrements are proved); abstract pointers identify allocation events, not addresses',
+    'A-order': '#[derive(PartialOrd)] on a field-less enum orders by declaration (spec generated from the extracted declaration)',
+    'A-debt': 'the three axioms about the uninterpreted debt test (ax_debt_empty / ax_debt_zero_factors / ax_debt_reset) are exactly what rows K.debt.* prove bit-precisely on the real Metrics::allocation_debt / finish_cycle',
+    'extraction': 'rewrite rules X-* of lib/extract.py (listed per function in coverage.verus.extraction)',
+    'shim': 'specs of the heap shim (header accessors, drop_in_place, dealloc, edge list), Vec / Option / ControlFlow::is_break specs (vstd, assume_specification); header specs checked by rows K.hdr.*',
+    'tools': 'Verus 0.2026.09.13 + Z3, Kani 0.68 + CBMC 6.11 + CaDiCaL, rustc',
+}
+PROP_ASSUMES = {
+    'C01': ['A-collect', 'A-client', 'A-borrowck', 'A-dtor', 'A-addr', 'extraction', 'shim', 'tools'],
+    'C02': ['A-collect', 'A-borrowck', 'A-dtor', 'A-addr', 'extraction', 'shim', 'tools'],
+    'C03': ['A-borrowck', 'A-dtor', 'extraction', 'shim', 'tools'],
+    'C04': ['A-dtor', 'A-addr', 'extraction', 'shim', 'tools'],
+    'C05': ['A-collect', 'A-client', 'A-dtor', 'A-addr', 'extraction', 'shim', 'tools'],
+    'C06': ['A-collect', 'A-client', 'A-addr', 'extraction', 'shim', 'tools'],
+    'C07': ['A-collect', 'A-client', 'extraction', 'shim', 'tools'],
+    'C08': ['A-order', 'A-debt', 'extraction', 'shim', 'tools'],
+    'C09': ['A-real', 'A-debt', 'A-order', 'A-addr', 'extraction', 'shim', 'tools'],
+    'C10': ['A-real', 'A-addr', 'extraction', 'shim', 'tools'],
+    'C11': ['A-unwind', 'A-collect', 'A-dtor', 'extraction', 'shim', 'tools'],
+    'C17': ['tools'],
+}
+
+
+def assumptions(pid):
+    return ['%s: %s' % (a, ASSUMPTIONS[a]) for a in PROP_ASSUMES.get(pid, ['tools'])]
+
+
+def trusted_base(pid, res):
+    tb = ['%s: %s' % (a, ASSUMPTIONS[a]) for a in PROP_ASSUMES.get(pid, ['tools'])]
+    return tb
